@@ -1,17 +1,18 @@
 #!/bin/bash
 # usage: mutant_eval2.sh <patch> <command...>
-# Evaluates a seeded defect WITHOUT touching /repo: the patch is applied to the scratch worktree /tmp/repo_mut, a copy of the harness
-# (/tmp/hm, path dependency on /tmp/repo_mut) is rebuilt, and <command> runs with LSMVERIF_BIN pointing at that build ($L in the command).
+# Evaluates a seeded defect WITHOUT touching /repo: the patch is applied to the scratch worktree /tmp/repo_mut$S, a copy of the harness
+# (/tmp/hm$S, path dependency on /tmp/repo_mut$S) is rebuilt, and <command> runs with LSMVERIF_BIN pointing at that build ($L in the command).
 set -u
+S=${MUT_SLOT:-}
 patch=$(readlink -f "$1"); shift
-[ -d /tmp/repo_mut ] || git -C /repo worktree add --detach /tmp/repo_mut HEAD >/dev/null 2>&1
-git -C /tmp/repo_mut checkout -q --detach "$(git -C /repo rev-parse HEAD)" 2>/dev/null
-git -C /tmp/repo_mut checkout -q -- .
-mkdir -p /tmp/hm && rsync -a --exclude target /verif/harness/ /tmp/hm/ && sed -i 's|path = "/repo"|path = "/tmp/repo_mut"|' /tmp/hm/Cargo.toml
-git -C /tmp/repo_mut apply "$patch" || { echo "PATCH DOES NOT APPLY"; exit 2; }
-(cd /tmp/hm && CARGO_NET_OFFLINE=true cargo build --release --offline 2>&1 | grep -E "^error" -A8 | head -20)
-export L=/tmp/hm/target/release/lsmverif LSMVERIF_BIN=/tmp/hm/target/release/lsmverif LSMDRV=/verif/lean/.lake/build/bin/lsmdrv
+[ -d /tmp/repo_mut$S ] || git -C /repo worktree add --detach /tmp/repo_mut$S HEAD >/dev/null 2>&1
+git -C /tmp/repo_mut$S checkout -q --detach "$(git -C /repo rev-parse HEAD)" 2>/dev/null
+git -C /tmp/repo_mut$S reset -q --hard
+mkdir -p /tmp/hm$S && rsync -a --exclude target /verif/harness/ /tmp/hm$S/ && sed -i "s|path = \"/repo\"|path = \"/tmp/repo_mut$S\"|" /tmp/hm$S/Cargo.toml
+git -C /tmp/repo_mut$S apply "$patch" || { echo "PATCH DOES NOT APPLY"; exit 2; }
+(cd /tmp/hm$S && CARGO_NET_OFFLINE=true cargo build --release --offline 2>&1 | grep -E "^error" -A8 | head -20)
+export L=/tmp/hm$S/target/release/lsmverif LSMVERIF_BIN=/tmp/hm$S/target/release/lsmverif LSMDRV=/verif/lean/.lake/build/bin/lsmdrv
 cd /verif && "$@"
 rc=$?
-git -C /tmp/repo_mut checkout -q -- .
+git -C /tmp/repo_mut$S reset -q --hard
 exit $rc
